@@ -432,8 +432,22 @@ class SymExec:
                     accs[k] = op
             elif isinstance(st, (ast.AnnAssign, ast.Pass)):
                 continue
-            elif isinstance(st, ast.Assign) and all(isinstance(t, ast.Name) for t in st.targets):
-                continue
+            elif isinstance(st, ast.Assign) and len(st.targets) == 1 and isinstance(st.targets[0], ast.Name):
+                t = st.targets[0].id
+                v = st.value
+                if isinstance(v, ast.BinOp) and isinstance(v.left, ast.Name) and v.left.id == t and \
+                        isinstance(v.op, (ast.Mult, ast.Div, ast.Add, ast.Sub)):
+                    op = '*' if isinstance(v.op, (ast.Mult, ast.Div)) else '+'
+                elif isinstance(v, ast.BinOp) and isinstance(v.right, ast.Name) and v.right.id == t and \
+                        isinstance(v.op, (ast.Mult, ast.Add)):
+                    op = '*' if isinstance(v.op, ast.Mult) else '+'
+                elif t in {n.id for n in ast.walk(v) if isinstance(n, ast.Name)}:
+                    return None
+                else:
+                    continue    # loop-local temporary
+                if accs.get(t, op) != op:
+                    return None
+                accs[t] = op
             elif isinstance(st, ast.Expr) and isinstance(st.value, ast.Constant):
                 continue
             else:
